@@ -662,6 +662,49 @@ fn transpose_native_f64(d: &mut Draw) -> Outcome {
     pass(["symmetric", "symmetric-up-to-sign-of-zero", "symmetric-up-to-an-ulp", "tiny", "generic-with-signed-zeros"][kind as usize], true)
 }
 
+
+/// native floats: scaling rows and columns by powers of two is exact, so invert(D1 B D2) = D2^-1 invert(B) D1^-1 entry by
+/// entry, each to its own scale - whatever the disparity between the entries
+fn invert_scaled_f64(d: &mut Draw) -> Outcome {
+    let n = d.int(2, 4) as usize;
+    let b = RM::<f64>::from_fn(n, |c, r| if c == r { d.f64_slog(1.0, 4.0) } else if d.chance(1, 3) { 0.0 } else { d.f64_in(-0.5, 0.5) });
+    let er: Vec<i32> = (0..n).map(|_| d.int(-60, 60) as i32).collect();
+    let ec: Vec<i32> = (0..n).map(|_| d.int(-60, 60) as i32).collect();
+    let m = RM::<f64>::from_fn(n, |c, r| b.e[c][r] * (2.0f64).powi(er[r] + ec[c]));
+    d.note("B", &b);
+    d.note("row exponents, column exponents", &(er.clone(), ec.clone()));
+    macro_rules! go {
+        ($mk:ident) => {{
+            let (ib, im) = ($mk(&b).invert(), $mk(&m).invert());
+            ensure!(ib.is_some() == im.is_some(), "scaled-inverse-presence", "invert() is {} for B but {} for D1 B D2", if ib.is_some() { "Some" } else { "None" }, if im.is_some() { "Some" } else { "None" });
+            if let (Some(ib), Some(im)) = (ib, im) {
+                let (ib, im) = (ib.rm(), im.rm());
+                for c in 0..n {
+                    for r in 0..n {
+                        // entry (c, r) of the inverse pairs column c of the inverse with row r: scaled by 2^-(ec[r] + er[c])
+                        let want = ib.e[c][r] * (2.0f64).powi(-(ec[r] + er[c]));
+                        // (to a relative 1e-12 of the entry's own scale rather than bit for bit: an implementation that pivots
+                        // may legitimately round differently after scaling, one that mixes scales loses whole entries)
+                        let unit = (2.0f64).powi(-(ec[r] + er[c]));
+                        ensure!((im.e[c][r] - want).abs() <= 1e-12 * (want.abs() + unit), "scaled-inverse", "invert(D1 B D2)[{}][{}] = {:e}, the scaled entry of invert(B) is {:e}", c, r, im.e[c][r], want);
+                    }
+                }
+                let e = ($mk(&b) * $mk(&ib)).rm().max_abs_diff(&RM::ident(n));
+                ensure!(e <= 1e-13, "scaled-inverse-base", "B * invert(B) differs from I by {:e} for a diagonally dominant B", e);
+            }
+            let (db, dm) = ($mk(&b).determinant(), $mk(&m).determinant());
+            let want = db * (2.0f64).powi(er.iter().sum::<i32>() + ec.iter().sum::<i32>());
+            ensure!((dm - want).abs() <= 1e-12 * want.abs(), "scaled-determinant", "determinant(D1 B D2) = {:e}, scaled determinant of B = {:e}", dm, want);
+        }};
+    }
+    match n {
+        2 => go!(mk_m2),
+        3 => go!(mk_m3),
+        _ => go!(mk_m4),
+    }
+    pass(match n { 2 => "2x2", 3 => "3x3", _ => "4x4" }, true)
+}
+
 const RULE_INV: &str = "dense invertible (all entries and all first minors non-zero), or one of the constructed singular / low-rank / tiny-determinant classes";
 const RULE_D: &str = "all entries of A and B non-zero and det A != 0";
 const RULE_T: &str = "all entries non-zero, neither operand symmetric";
@@ -708,6 +751,7 @@ pub fn property() -> Property {
     s.push(sc!("illconditioned_native-f64", "f64", illconditioned_native_f64, 4000, 300_000, 32, ILL, "every generated matrix (permuted direct sums of [[a,a-1],[a+1,a]] and ones)", false));
     s.push(sc!("illconditioned_native-f32", "f32", illconditioned_native_f32, 4000, 300_000, 32, ILL, "every generated matrix (permuted direct sums of [[a,a-1],[a+1,a]] and ones)", false));
     s.push(sc!("transpose_native-f64", "f64", transpose_native_f64, 4000, 300_000, 96, &[("symmetric", 100), ("symmetric-up-to-sign-of-zero", 100), ("symmetric-up-to-an-ulp", 100), ("tiny", 100), ("generic-with-signed-zeros", 100)], "every generated matrix", false));
+    s.push(sc!("invert_scaled-f64", "f64", invert_scaled_f64, 4000, 300_000, 64, ILL, "every generated matrix (a diagonally dominant B with rows and columns scaled by 2^-60..2^60)", false));
     s.push(sc!("invert_near_special-f64", "f64", invert_near_special_f64, 6000, 400_000, 80, &[("near-rotation", 300), ("near-diagonal", 100)], "every generated matrix (a rotation or diagonal matrix with 1-3 entries or the overall scale off by 1e-14..1e-4)", false));
     Property {
         id: "C02",
